@@ -359,6 +359,10 @@ def rules(ctx):
     ctx.inst('R19.5', cf, anc[0] if anc else 'model._ancilla = info[...]', ok,
              "ancilla counter restored before the constraints are re-added" if ok else
              "the ancilla counter is not restored (before re-adding the constraints)")
+    # the replay relies on `lam == 0 -> record only` in every relational method of both classes
+    for cls_ in ('PCBO', 'PCSO'):
+        for rel, m_ in C02.rel_methods(P, cls_).items():
+            C02.lam_zero_rule(ctx, 'R19.5', m_)
     # restore guards: value-truthiness guards only where the falsy value is the default
     model_var = None
     for n in g.stmts():
@@ -370,6 +374,10 @@ def rules(ctx):
             for t, pol, o in g.edge_dominators(n):
                 facts += compare_atoms(t, pol)
             bad = [f for f in facts if f[0] in ('truthy', 'falsy') and ('"name"' in f[1] or "'name'" in f[1]) and ' in ' not in f[1]]
+            # the restored value itself must not be filtered by truthiness either (`x or None`, `x if x else None`)
+            v_ = n.value
+            if isinstance(v_, ast.BoolOp) or isinstance(v_, ast.IfExp):
+                bad = bad or [('truthy', src(v_))]
             ctx.inst('R19.5', cf, n, not bad,
                      "name restored unconditionally / on key presence only" if not bad else
                      "the name is restored only if truthy (%s): falsy names such as 0 or '' are lost in the round trip" % bad[0][1])
